@@ -66,7 +66,7 @@ def build_check(prefix, sp: AggSpec, clauses=("rejects", "post", "dtype", "shape
 
     def fn(H):
         def body(cx):
-            it = H.interp(cx)
+            it = H.interp(cx, loop_specs=AGG_LOOPS)
             J, (m, n) = sym_matrix(cx, "J")
             cx.assume(m >= 1)
             kwargs, cfg = sp.config(cx, m, J)
@@ -276,3 +276,153 @@ def mk_amtl(with_pref):
 SPECS = {"Mean": MEAN, "Sum": SUM, "Constant": CONSTANT, "Random": RANDOM, "IMTLG": IMTLG,
          "ConFIG.default": mk_config(False), "ConFIG.pref": mk_config(True),
          "AlignedMTL.default": mk_amtl(False), "AlignedMTL.pref": mk_amtl(True)}
+
+
+# ============================================================================= aggregators with loops (sidecar loop contracts)
+
+from tjv.pyvc.interp import LoopSpec  # noqa: E402
+from tjv.pyvc.aten import Storage  # noqa: E402
+
+AGG_LOOPS = {}
+
+
+def _fresh_vec(cx, name, n, dtype):
+    return ATen(cx.fresh_const(name, ArrS), [n], dtype, "torch")
+
+
+# ----------------------------------------------------------------------------- GradDrop
+
+
+def graddrop_summand(it, J, leak, fP, Urand, i):
+    B = S.B
+    with it.cx.mute():
+        row = P.getitem(it, J, i)
+        pos = P.compare(it, ast.Gt(), row, 0)
+        neg = P.compare(it, ast.Lt(), row, 0)
+        M = B(it, ast.Add(), B(it, ast.Mult(), P.compare(it, ast.Gt(), fP, Urand), pos), B(it, ast.Mult(), P.compare(it, ast.Lt(), fP, Urand), neg))
+        li = P.getitem(it, leak, i)
+        coef = B(it, ast.Add(), li, B(it, ast.Mult(), B(it, ast.Sub(), 1, li), M))
+        return B(it, ast.Mult(), coef, row)
+
+
+def graddrop_loop():
+    """GradDrop.forward: for i in range(len(matrix)): vector += (leak[i] + (1 - leak[i]) * M_i) * matrix[i].
+    Invariant: vector = PS(i), the i-th partial sum of the spec summands (PS(0) = 0, PS(i+1) = PS(i) + summand(i))."""
+    def PS(cx):
+        if "graddrop_PS" not in cx.ghost:
+            cx.ghost["graddrop_PS"] = cx.fresh_func("PS", z3.IntSort(), ArrS)
+        return cx.ghost["graddrop_PS"]
+
+    def havoc(cx, frame, i):
+        v = frame.vars["vector"]
+        frame.vars["vector"] = ATen(cx.fresh_const("vector", ArrS), v.shape_l, v.dtype, v.kind)
+
+    def inv(cx, frame, i):
+        ps = PS(cx)
+        it = cx.ghost["interp"]
+        v = frame.vars["vector"]
+        if "__zero__" not in frame.vars:
+            frame.vars["__zero__"] = v.term  # the accumulator at loop entry (must be the zero vector: checked by .post)
+            cx.ghost["graddrop_zero"] = v.term
+        # defining equations of the partial sums (spec): PS(0) = zeros(n), PS(j+1) = PS(j) (+)= summand(j)
+        n = frame.vars["matrix"].shape_l[1]
+        cx.assume(ps(0) == U("zeros", ArrS, lift(n)), tag="partial sums (spec definition)")
+        acc = ATen(ps(lift(i)), v.shape_l, v.dtype, v.kind)
+        with cx.mute():
+            sm = graddrop_summand(it, frame.vars["matrix"], frame.vars["leak"], frame.vars["fP"], frame.vars["U"], lift(i))
+            nxt = P.binop(it, ast.Add(), acc, sm, inplace=True)
+        cx.assume(ps(lift(i) + 1) == nxt.term, tag="partial sums (spec definition)")
+        return [("partial_sum", v.term == ps(lift(i)))]
+    return LoopSpec(havoc, inv)
+
+
+AGG_LOOPS[(f"{AGG}.graddrop.GradDrop.forward", 0)] = graddrop_loop()
+
+
+def spec_graddrop(it, J, m, n, cfg, cx):
+    ps = cx.ghost.get("graddrop_PS")
+    with cx.mute():
+        empty = z3.Or(lift(m) == 0, lift(n) == 0)
+        zeros = P.call(it, "torch.zeros", [n], {"dtype": J.dtype})
+    cases = [(empty, zeros)]
+    if ps is not None:
+        cases.append((z3.Not(empty), ATen(ps(lift(m)), [n], J.dtype)))
+    return cases
+
+
+def cfg_graddrop(with_leak):
+    def config(cx, m, J):
+        if not with_leak:
+            return {"leak": None}, {"leak": None}
+        lk, ln = sym_vector(cx, "leak", dtype=J.dtype)
+        return {"leak": lk}, {"leak": lk, "llen": ln}
+    return config
+
+
+# ----------------------------------------------------------------------------- MGDA (Frank-Wolfe)
+
+
+def mgda_axioms(cx, G: ATen, m):
+    """Real vector algebra used by the Frank-Wolfe invariant [T] (each is a Mathlib fact about finite sums / bilinear
+    forms; the PSD facts hold because G = J J^T: bridge lemmas fwGamma_*, mgda_step_descent, simplex_segment)."""
+    x, y = z3.Const("x!q", ArrS), z3.Const("y!q", ArrS)
+    p, q = z3.Real("p!q"), z3.Real("q!q")
+    t = z3.Int("t!q")
+    vsum = lambda a: U("vsum", z3.RealSort(), a)  # noqa: E731
+    nonneg = lambda a: U("nonneg", z3.BoolSort(), a)  # noqa: E731
+    comb = U("eadd", ArrS, U("smul", ArrS, p, x), U("smul", ArrS, q, y))
+    zeros = U("zeros", ArrS, lift(m))
+    onehot = U("setitem", ArrS, zeros, t, z3.RealVal(1))
+    Gt = G.term
+    bil = lambda a, b: U("item", z3.RealSort(), U("dot", ArrS, a, U("matvec", ArrS, Gt, b)))  # noqa: E731
+    ax = [
+        V.forall([p, x, q, y], vsum(comb) == p * vsum(x) + q * vsum(y), patterns=[vsum(comb)]),
+        V.forall([p, x, q, y], z3.Implies(z3.And(p >= 0, q >= 0, nonneg(x), nonneg(y)), nonneg(comb)), patterns=[nonneg(comb)]),
+        V.forall([t], z3.Implies(z3.And(0 <= t, t < lift(m)), z3.And(vsum(onehot) == 1, nonneg(onehot))), patterns=[onehot]),
+        # quadratic form of a combination, and the PSD facts (Cauchy-Schwarz for the Gramian form)
+        V.forall([p, x, q, y], bil(comb, comb) == p * p * bil(x, x) + 2 * p * q * bil(x, y) + q * q * bil(y, y), patterns=[bil(comb, comb)]),
+        V.forall([x, y], z3.And(bil(x, x) >= 0, bil(x, y) * bil(x, y) <= bil(x, x) * bil(y, y), bil(x, y) == bil(y, x)),
+                 patterns=[bil(x, y)]),
+    ]
+    for a in ax:
+        cx.assume(a, tag="real vector algebra / PSD bilinear form of the Gramian [T, Lean: simplex_segment, mgda_step_descent]")
+    return vsum, nonneg, bil
+
+
+def mgda_loop():
+    """_frank_wolfe_solver loop.  Invariant: alpha is on the simplex (sum 1, entries >= 0), has length m, and
+    alpha^T G alpha <= alpha0^T G alpha0 (the norm of the combination never increases)."""
+    def havoc(cx, frame, i):
+        a = frame.vars["alpha"]
+        frame.vars["alpha"] = ATen(cx.fresh_const("alpha", ArrS), a.shape_l, a.dtype, a.kind)
+
+    def inv(cx, frame, i):
+        G = frame.vars["gramian"]
+        m = frame.vars["matrix"].shape_l[0]
+        if "__mgda_ax__" not in frame.vars:
+            frame.vars["__mgda_ax__"] = mgda_axioms(cx, G, m)
+            frame.vars["__alpha0__"] = frame.vars["alpha"].term
+            cx.ghost["mgda"] = (frame.vars["__mgda_ax__"], frame.vars["__alpha0__"], G)
+        vsum, nonneg, bil = frame.vars["__mgda_ax__"]
+        a = frame.vars["alpha"].term
+        a0 = frame.vars["__alpha0__"]
+        return [("sum_is_one", vsum(a) == 1), ("nonnegative", nonneg(a)), ("norm_never_increases", bil(a, a) <= bil(a0, a0))]
+    return LoopSpec(havoc, inv, has_break=True)
+
+
+AGG_LOOPS[(f"{AGG}.mgda._MGDAWeighting._frank_wolfe_solver", 0)] = mgda_loop()
+
+
+def spec_mgda(it, J, m, n, cfg, cx):
+    """MGDA: a convex combination of the rows (weights on the simplex) never longer than the initial (mean) one;
+    the weights are whatever the Frank-Wolfe loop ends with (its invariant is the contract)."""
+    return None
+
+
+GRADDROP = {w: AggSpec("GradDrop." + ("leak" if w else "default"), f"{AGG}.graddrop.GradDrop",
+                       [f"{AGG}.graddrop.GradDrop.forward", f"{AGG}.graddrop.GradDrop._check_matrix_has_enough_rows", f"{AGG}.graddrop._identity",
+                        f"{AGG}.bases.Aggregator._check_is_matrix", f"{AGG}.bases.Aggregator._check_is_finite"],
+                       cfg_graddrop(w), (lambda cx, J, m, n, cfg: z3.BoolVal(True) if cfg.get("leak") is None else cfg["llen"] == m),
+                       spec_graddrop, weighted=False) for w in (False, True)}
+SPECS["GradDrop.default"] = GRADDROP[False]
+SPECS["GradDrop.leak"] = GRADDROP[True]
